@@ -233,7 +233,7 @@ func (dec *Decoder) decodeString(t reflect.Type, tag byte, p *string) {
 	case TagString:
 		*p = dec.ReadString()
 	case TagBytes:
-		*p = convert.ToUnsafeString(dec.ReadBytes())
+		*p = string(dec.ReadBytes()) // a copy: the bytes stay in the reference table
 	case TagTime:
 		*p = dec.ReadTime().String()
 	case TagDate:
